@@ -95,7 +95,7 @@ static int v_fputc(int c, FILE *fp) { return v_fprintf(fp, "%c", c); }
 #undef putc
 #include "build.h"
 
-#if MODE == 1 || MODE == 2
+#if MODE == 1 || MODE == 2 || MODE == 5
 /* ---- the scanner ---- */
 static int n_echo, st_act, st_start, st_pos, stepped;
 #define ECHO do { n_echo++; } while (0)
@@ -144,6 +144,25 @@ static int body_len, rest_len;
 static size_t index0;
 static cfg_t lcfg;
 
+#if MODE == 5
+static char key_name[3];
+static int key_len;
+static void check(int tok)
+{
+	int consumed = st_pos - st_start;
+
+	stepped = 1;
+	V_ASSERT(tok == CFGT_STR && consumed == key_len && cfg_yylval != NULL && strcmp(cfg_yylval, key_name) == 0,
+		 "[C05] a printed option name reads back as that name (one string token, nothing more, nothing less)");
+	V_ASSERT(n_echo == 0, "[C02] nothing is echoed");
+	V_WITNESS("stepped");
+}
+static void verif_break(void)
+{
+	check(-2);
+	V_CUT();
+}
+#endif
 #if MODE == 1 || MODE == 2
 static void check(int tok)
 {
@@ -315,6 +334,35 @@ int main(void)
 		r = cfg_setopt(&root, B, out);
 		V_ASSERT(r != NULL && (int)B->values[0]->boolean == (vin_b ? 1 : 0), "[C05] a printed boolean is accepted and converts back to the same truth value");
 		V_WITNESS("stepped");
+	}
+#elif MODE == 5
+	{
+		/* the name of a free-form key (CFGF_KEYSTRVAL sections create an option for ANY string token in name
+		 * position, quoted ones included) as the real printer writes it, read back by one scanner step */
+		V_IN_UCHAR(vin_c);
+		V_IN_UCHAR(vin_d);
+
+		V_ASSUME(vin_c != 0);
+#ifdef BAREWORD
+		/* names that are bare words of the language */
+		V_ASSUME((vin_c >= 'a' && vin_c <= 'z') || (vin_c >= 'A' && vin_c <= 'Z') || (vin_c >= '0' && vin_c <= '9') || vin_c == '_' || vin_c == '-');
+		V_ASSUME(vin_d == 0 || (vin_d >= 'a' && vin_d <= 'z') || (vin_d >= 'A' && vin_d <= 'Z') || (vin_d >= '0' && vin_d <= '9') || vin_d == '_' || vin_d == '-');
+#endif
+		key_name[0] = (char)vin_c;
+		key_name[1] = (char)vin_d;
+		key_name[2] = 0;
+		key_len = vin_d ? 2 : 1;
+		init_opt(O, key_name, CFGT_STR, CFGF_NONE);
+		alloc_values(O, 1);
+		O->values[0]->string = heap_str("v");
+		cfg_opt_print_pff_indent(O, (FILE *)&lcfg, NULL, 0);
+		out[out_n] = 0;
+		V_ASSERT(out_n == key_len + 5 || out_n > key_len + 5, "[C05] an option is printed as its name, '=' and its value");
+		for (i = 0; i < out_n && i < 15; i++)
+			src[i] = out[i];
+		src[i] = 0;
+		cfg_scan_fp_begin(&fake_fp);
+		check(cfg_yylex(&lcfg));
 	}
 #elif MODE == 4
 	{
